@@ -1,5 +1,6 @@
 pub mod c01;
 pub mod c02;
+pub mod c03;
 pub mod common;
 
 use crate::engine::PropertySpec;
@@ -8,8 +9,9 @@ pub fn spec(id: &str) -> Option<PropertySpec> {
     match id {
         "C01" => Some(c01::spec()),
         "C02" => Some(c02::spec()),
+        "C03" => Some(c03::spec()),
         _ => None,
     }
 }
 
-pub const ALL: [&str; 2] = ["C01", "C02"];
+pub const ALL: [&str; 3] = ["C01", "C02", "C03"];
